@@ -57,6 +57,10 @@ def run_impl(case):
     writable = []
 
     def probe(value, tree, path):
+        from collections.abc import Mapping
+        if not isinstance(value, Mapping):
+            writable.append(path + ['<not a mapping>'])
+            return
         try:
             value['__probe__'] = 1
             writable.append(path)
